@@ -8,6 +8,9 @@
 #include "worlds.h"
 
 #include "world_builder/world.h"
+#include "rapidjson/document.h"
+#include "rapidjson/stringbuffer.h"
+#include "rapidjson/writer.h"
 
 #include <chrono>
 #include <cstdio>
@@ -139,10 +142,45 @@ namespace
       {}
   }
 
+  // A replay file may hold a history of scenarios, {"sequence":[...]}: they are executed one after the other in this
+  // process, and the result reported is that of the last one (what earlier worlds of a process leave behind is part
+  // of "every history").
+  int cmd_exec_sequence(const rapidjson::Document &d, bool verbose)
+  {
+    const auto &seq = d["sequence"];
+    std::printf("BEGIN 0\n");
+    std::fflush(stdout);
+    RunResult last;
+    for (rapidjson::SizeType i = 0; i < seq.Size(); ++i)
+      {
+        rapidjson::StringBuffer sb;
+        rapidjson::Writer<rapidjson::StringBuffer, rapidjson::UTF8<>, rapidjson::UTF8<>, rapidjson::CrtAllocator, rapidjson::kWriteNanAndInfFlag> w(sb);
+        seq[i].Accept(w);
+        Scenario s;
+        std::string err;
+        if (!scenario_from_json(sb.GetString(), s, err))
+          {
+            std::fprintf(stderr, "gwbsim: sequence element %u: %s\n", static_cast<unsigned>(i), err.c_str());
+            return 3;
+          }
+        last = execute(s);
+      }
+    std::printf("END 0 %s\n", one_line(result_to_json(last, verbose)).c_str());
+    std::printf("REDO same\n");
+    std::fflush(stdout);
+    return 0;
+  }
+
   int cmd_exec(const std::string &path, bool verbose)
   {
     warm_runtime();
     const std::string json = read_file(path);
+    {
+      rapidjson::Document d;
+      d.Parse<rapidjson::kParseNanAndInfFlag>(json.c_str(), json.size());
+      if (!d.HasParseError() && d.IsObject() && d.HasMember("sequence") && d["sequence"].IsArray() && d["sequence"].Size() > 0)
+        return cmd_exec_sequence(d, verbose);
+    }
     Scenario s;
     std::string err;
     if (!scenario_from_json(json, s, err))
